@@ -52,6 +52,7 @@ Qed.
 Lemma dec_record_enc : forall x, wf_record x -> dec_record (enc_record x) = Some x.
 Proof.
   intros [h sg] [Hh [Hs _]]. cbn [fst snd] in *. unfold dec_record, enc_record. cbn [fst snd].
+  rewrite (b2n_n2b_lt 1) by lia. cbn [N.eqb Pos.eqb].
   rewrite dec_header_enc by exact Hh.
   rewrite <- (app_nil_r sg) at 1. rewrite (take_len 32 sg [] Hs). reflexivity.
 Qed.
